@@ -464,6 +464,9 @@ func (c *AbstractVariantOperations) Lsh(
 	}
 
 	// Performs operation.
+	if value2.AsInteger() < 0 {
+		return nil, errors.NewBadRequestError("", "NEGATIVE_SHIFT", "Shift count cannot be negative")
+	}
 	switch value1.Type() {
 	case Integer:
 		result.SetAsInteger(value1.AsInteger() << value2.AsInteger())
@@ -501,6 +504,9 @@ func (c *AbstractVariantOperations) Rsh(
 	}
 
 	// Performs operation.
+	if value2.AsInteger() < 0 {
+		return nil, errors.NewBadRequestError("", "NEGATIVE_SHIFT", "Shift count cannot be negative")
+	}
 	switch value1.Type() {
 	case Integer:
 		result.SetAsInteger(value1.AsInteger() >> value2.AsInteger())
